@@ -1799,6 +1799,17 @@ impl<'t, 'c> Gen<'t, 'c> {
         }
     }
 
+    /// The last field of a path may be written with the type character of its type (`rec.name$`, `rec.count%`).
+    fn spell_fields(&mut self, fields: &[String], sty: &STy) -> Vec<String> {
+        let mut f = fields.to_vec();
+        if let (Some(last), Some(t)) = (f.last_mut(), sty.ety()) {
+            if self.t.chance(1, 4) {
+                last.push(t.suffix());
+            }
+        }
+        f
+    }
+
     fn value_for(&mut self, sty: &STy) -> Expr {
         match sty {
             STy::B(Ty::Str) | STy::Fixed(_) => {
@@ -1879,8 +1890,11 @@ impl<'t, 'c> Gen<'t, 'c> {
             let mut bounds = vec![];
             let explicit = self.t.chance(2, 3);
             let mut total = 1;
-            for _ in 0..ndim {
-                let lo = if explicit { self.t.range(-3, 3) as i32 } else { 0 };
+            for d in 0..ndim {
+                let mut lo = if explicit { self.t.range(-3, 3) as i32 } else { 0 };
+                if explicit && d > 0 && self.t.chance(1, 3) {
+                    lo = 0;
+                }
                 let extent = 1 + self.t.choose(if ndim == 3 { 3 } else { 4 }) as i32;
                 total *= extent;
                 bounds.push((lo, lo + extent - 1));
@@ -1964,7 +1978,21 @@ impl<'t, 'c> Gen<'t, 'c> {
                 }
             }).collect();
             let index: Vec<Expr> = idx_vals.iter().map(|v| self.index_expr(*v)).collect();
+            let fields = self.spell_fields(&fields, &lsty);
             let lv = LValue { name: target.name.clone(), var: target.var, index, fields, sty: lsty.clone() };
+            if lsty.ety().map(|t| t.is_numeric()).unwrap_or(false) && self.t.chance(1, 8) {
+                // READ into the element / field: converted to ITS type (a DOUBLE keeps what a SINGLE cannot hold)
+                let v = *self.t.pick(&[16777217i64, 5, 123456789, 40000, 7]);
+                let fits = match lsty.ety().unwrap() {
+                    Ty::Int => v <= 32767,
+                    _ => true,
+                };
+                if fits {
+                    self.data_items.push(DataItem::Num(false, Lit::Whole(v)));
+                    main.push(Stmt::Read(vec![lv]));
+                    continue;
+                }
+            }
             match self.t.choose(6) {
                 0 | 1 | 2 => {
                     let mut e = self.value_for(&lsty);
@@ -2036,7 +2064,8 @@ impl<'t, 'c> Gen<'t, 'c> {
             for tup in tuples {
                 let mut items = vec![];
                 for (fields, lsty) in &leaves {
-                    let lv = LValue { name: a.name.clone(), var: a.var, index: tup.iter().map(|v| lit_i(*v as i64)).collect(), fields: fields.clone(), sty: lsty.clone() };
+                    let fields = self.spell_fields(fields, lsty);
+                    let lv = LValue { name: a.name.clone(), var: a.var, index: tup.iter().map(|v| lit_i(*v as i64)).collect(), fields, sty: lsty.clone() };
                     if lsty.ety() == Some(Ty::Str) {
                         items.push(s_lit("["));
                         items.push(Expr::Load(lv));
@@ -2065,6 +2094,12 @@ impl<'t, 'c> Gen<'t, 'c> {
                 main.push(pr(vec![s_lit("<"), Expr::Load(lv), s_lit(">")]));
             }
             main.push(pr(vec![s_lit("not reached")]));
+        }
+        if !self.data_items.is_empty() {
+            let items = std::mem::take(&mut self.data_items);
+            for c in items.chunks(4) {
+                main.push(Stmt::Data(c.to_vec()));
+            }
         }
         self.prog.main = main;
         self.prog
